@@ -125,6 +125,8 @@ pub fn siqs(
     if let Some(pool) = tpool.as_ref() {
         pool.install(|| {
             a_ints.par_iter().for_each(|&a_int| {
+                #[cfg(yamaquasi_verif)]
+                crate::verif_sched::yield_point(1);
                 if s.gap.load(Ordering::Relaxed) == 0 {
                     return;
                 }
@@ -191,6 +193,8 @@ fn sieve_a(s: &SieveSIQS, a_int: &Uint, factors: &Factors) {
     // Storage for recycled resources.
     let mut recycled = None;
     for idx in 0..polys_per_a {
+        #[cfg(yamaquasi_verif)]
+        crate::verif_sched::yield_point(2);
         if s.done.load(Ordering::Relaxed) {
             // Interrupt early.
             return;
@@ -201,6 +205,8 @@ fn sieve_a(s: &SieveSIQS, a_int: &Uint, factors: &Factors) {
         assert!(pol.idx == idx);
         recycled = Some(siqs_sieve_poly(s, a, &pol, recycled));
         // Check status.
+        #[cfg(yamaquasi_verif)]
+        crate::verif_sched::yield_point(3);
         let rlen = {
             let rels = s.rels.read().unwrap();
             rels.len()
@@ -208,8 +214,12 @@ fn sieve_a(s: &SieveSIQS, a_int: &Uint, factors: &Factors) {
 
         s.polys_done.fetch_add(1, Ordering::SeqCst);
 
+        #[cfg(yamaquasi_verif)]
+        crate::verif_sched::yield_point(4);
         if rlen >= s.target.load(Ordering::Relaxed) {
             // unlikely: are we done yet?
+            #[cfg(yamaquasi_verif)]
+            crate::verif_sched::yield_point(5);
             let rgap = {
                 let rels = s.rels.read().unwrap();
                 rels.gap(s.fbase)
@@ -1430,6 +1440,8 @@ fn sieve_block_poly(s: &SieveSIQS, pol: &Poly, a: &A, st: &mut sieve::Sieve) {
             cyclelen: 1,
         };
         debug_assert!(rel.verify(&n));
+        #[cfg(yamaquasi_verif)]
+        crate::verif_sched::yield_point(6);
         s.rels.write().unwrap().add(rel, pq);
     }
 }
